@@ -575,6 +575,9 @@ func (w *World) body(m *mat, args []reflect.Value) []reflect.Value {
 		var v reflect.Value
 		if r.Flatten || r.Whole {
 			v = reflect.MakeSlice(sliceTypeOf(r.K.T, r.Slice), 0, r.N)
+			if r.N == 0 && (f.ID+exec)%2 == 0 {
+				v = reflect.Zero(sliceTypeOf(r.K.T, r.Slice)) // a nil slice instead of an empty one
+			}
 			rec.Toks[i] = []*Tok{}
 			for e := 0; e < r.N; e++ {
 				tk := &Tok{f.ID, exec, i, e, failed}
